@@ -493,6 +493,30 @@ def run(ctx, R, tier):
             "the client accepts other message types as the answer of a call: `%s`" % (unparse(arg) if arg is not None else "None"))
 
     # streamed results: a stream's table key is made fresh per stream; two streams of one conversation must not answer each other's item requests (shared with C10-R3)
+    # the thread a oneway request is handed to really runs that request's call, once: Thread.__init__ is given `_methodcall` as its target (or run() calls it), and
+    # everything `_methodcall` / run() read from the thread object was put there by __init__ from its parameters - a field that is never set makes the thread die
+    # with AttributeError before the method is called: the client was told nothing (oneway) and the call never ran
+    owc = p.cls("Pyro5.server._OnewayCallThread")
+    oinit, omc = owc.methods.get("__init__"), owc.methods.get("_methodcall")
+    if oinit is None or omc is None:
+        raise AnalysisError("_OnewayCallThread.__init__ / _methodcall vanished")
+    targets_mc = any(isinstance(c, ast.Call) and isinstance(c.func, ast.Attribute) and c.func.attr == "__init__" and
+                     any(k.arg == "target" and unparse(k.value) == "%s._methodcall" % oinit.self_name for k in c.keywords) for c in walk_no_nested(oinit.node))
+    orun = owc.methods.get("run")
+    run_calls_mc = orun is not None and any(isinstance(c, ast.Call) and unparse(c.func) == "%s._methodcall" % orun.self_name for c in walk_no_nested(orun.node))
+    set_in_init = {t.attr for st, t, k in stores_in(oinit.node) if isinstance(t, ast.Attribute) and isinstance(t.value, ast.Name) and t.value.id == oinit.self_name}
+    read_later = set()
+    for m_ in [x for x in (omc, orun) if x is not None]:
+        for n in walk_no_nested(m_.node):
+            if isinstance(n, ast.Attribute) and isinstance(n.value, ast.Name) and n.value.id == m_.self_name and isinstance(n.ctx, ast.Load) and n.attr.startswith(("pyro_", "parent_")):
+                read_later.add(n.attr)
+    unset = sorted(read_later - set_in_init)
+    calls_m = [c for c in walk_no_nested(omc.node) if isinstance(c, ast.Call) and any(isinstance(a, ast.Starred) for a in c.args) and any(k.arg is None for k in c.keywords)]
+    R.check((targets_mc or run_calls_mc) and not unset and len(calls_m) == 1, "C03-R8", "_OnewayCallThread|runs-the-call-it-was-given-once",
+            "the oneway thread's target is _methodcall, which makes the one call from fields that __init__ has set (%d fields)" % len(read_later), oinit.loc(),
+            ("the thread is not started on _methodcall" if not (targets_mc or run_calls_mc) else
+             ("_methodcall / run read %s, which __init__ never sets: the thread dies with AttributeError before the method is called" % unset) if unset else
+             "_methodcall makes %d calls of the request's method" % len(calls_m)) + " - a oneway request that was delivered is not executed exactly once")
     # the proxy adopts a connection only once the daemon has answered CONNECTOK: a connection published on the proxy earlier survives a refused or failed handshake as
     # `_pyroConnection` (closed, or never accepted) - "already connected" from then on: the next call is sent on it instead of reconnecting, and fails for ever
     cah3 = ctx.fn("Pyro5.client.Proxy.__pyroCreateConnection.connect_and_handshake")
